@@ -33,10 +33,12 @@ AzFold(d) == IF Gt(d, FromInt(180)) THEN Sub(d, FromInt(360)) ELSE IF Lt(d, From
 INVChecks(o) ==
   LET lsf == J(o.lsf)
       simpson == DivSmall(Add(Add(J(o.psf[1]), MulSmall(J(o.psf[3]), 4)), J(o.psf[5])), 6)
-  IN << <<"grid_distance_is_ellipsoidal_times_lsf", o.dist_hex = o.step_dist_hex>>,
-        <<"bearing_1_is_azimuth_plus_convergence", o.g12_hex = o.step_g12_hex>>,
-        <<"bearing_2_is_azimuth_plus_convergence", o.g21_hex = o.step_g21_hex>>,
-        <<"lsf_is_line_sf", o.lsf_hex = o.step_lsf_hex>>,
+      \* "returns the distance times the line scale factor, the azimuths plus the convergences": numerically (1 um, 1e-10 deg, 1e-12) -
+      \* an implementation that orders its floating-point operations differently still returns these products and sums
+  IN << <<"grid_distance_is_ellipsoidal_times_lsf", Within(J(o.num.dist), J(o.num.sdist), Dec(100, 2))>>,
+        <<"bearing_1_is_azimuth_plus_convergence", Leq(Abs(AzFold(Sub(J(o.num.g12), J(o.num.sg12)))), Dec(100, 3))>>,
+        <<"bearing_2_is_azimuth_plus_convergence", Leq(Abs(AzFold(Sub(J(o.num.g21), J(o.num.sg21)))), Dec(100, 3))>>,
+        <<"lsf_is_line_sf", Within(lsf, J(o.num.slsf), Dec(1, 3))>>,
         <<"lsf_not_below_min_psf", Geq(lsf, Sub(MinOf(o.psf, 1), Lsf3e7))>>,
         <<"lsf_not_above_max_psf", Leq(lsf, Add(MaxOf(o.psf, 1), Lsf3e7))>>,
         <<"lsf_simpson", ~o.short \/ Within(lsf, simpson, Lsf5e7)>> >>
